@@ -520,6 +520,20 @@ def linspace(it, args, kwargs, node):
     return r
 
 
+def fftfreq(it, args, kwargs, node):
+    """np.fft.fftfreq(n, d): element j = (j if j <= (n-1)//2 else j - n) / (n*d)"""
+    if not args:
+        return None
+    n = to_term(args[0])
+    d = to_term(args[1]) if len(args) > 1 else to_term(kwargs["d"]) if "d" in kwargs else const(1.0)
+    idx = it.index_symbol(n)
+    signed = mk("ite", mk("le", idx, mk("floordiv", mk("sub", n, const(1)), const(2))), idx, mk("sub", idx, n))
+    r = Val(mk("div", signed, mk("mul", n, d)))
+    r.axes = [Axis(idx, n, name="fftfreq")]
+    r.length = n
+    return r
+
+
 def meshgrid(it, args, kwargs, node):
     ind = kwargs.get("indexing")
     if ind is None or not is_pyconst(ind) or pyval(ind) != "ij":
